@@ -73,8 +73,12 @@ def observed_int(msg):
 
 
 def check_message(enc, dec, fmt, pgn, payload, prev_seq, ctxlabel):
+    return check_message_on(enc, dec, fmt, pgn, CARRIERS[pgn][1], payload, prev_seq, ctxlabel)
+
+
+def check_message_on(enc, dec, fmt, pgn, dst, payload, prev_seq, ctxlabel):
     """encode one arbitrary payload, check framing, feed to decoder. -> (violations, seq)"""
-    cid, dst = CARRIERS[pgn]
+    cid = CARRIERS[pgn][0]
     msg = NMEA2000Message(PGN=pgn, id=cid, priority=3, source=5, destination=dst)
     enc._call_encode_function = lambda m, _p=payload: _p
     out = []
@@ -203,6 +207,39 @@ def _task_chain(args):
     return n, vios, {"part": "chain", "format": fmt, "sequence_counters": seqs}, 0
 
 
+STREAMS = {"A": (126720, 9), "B": (130816, 255), "C": (126720, 37)}
+
+
+def _task_d(args):
+    """sequences of messages over several streams sharing ONE encoder counter (so a stream sees the
+    same counter again whenever 8, 16, ... fast messages lie between two of its messages)"""
+    fmt, prefixes, length = args
+    bl = [9, 13, 0, 6, 7, 14, 20, 223, 21, 1]
+    names = sorted({c for pre in prefixes for c in pre} | {"A", "B"})
+    vios, n = [], 0
+    sample = None
+    for pre in prefixes:
+        for rest in itertools.product("AB", repeat=length - len(pre)):
+            seq = tuple(pre) + rest
+            enc, dec = NMEA2000Encoder(), NMEA2000Decoder()
+            prev = None
+            for idx, st in enumerate(seq):
+                pgn, dst = STREAMS[st]
+                L = bl[(idx * 3 + len(pre)) % len(bl)]
+                v, prev = check_message_on(enc, dec, fmt, pgn, dst, pattern("asc" if idx % 2 else "seeded", L, idx), prev,
+                                           f"{fmt} streams {''.join(seq)} item {idx} (stream {st}, L={L})")
+                n += 1
+                for kind, facts, detail in v:
+                    if len(vios) < 40:
+                        vios.append({"kind": kind, "facts": dict(facts, format=fmt, part="d"), "signature": f"d:{kind}:{fmt}",
+                                     "detail": detail, "case": {"part": "d", "format": fmt, "streams": "".join(seq), "offset": len(pre)}})
+                if v:
+                    break
+            if sample is None:
+                sample = {"part": "d", "format": fmt, "streams": "".join(seq)}
+    return n, vios, sample, 0
+
+
 def _task_c(args):
     idxs, = args
     db = refdb.db()
@@ -260,7 +297,7 @@ def _task_c(args):
 
 
 def _dispatch(t):
-    return {"a": _task_a, "b": _task_b, "chain": _task_chain, "c": _task_c}[t[0]](t[1])
+    return {"a": _task_a, "b": _task_b, "chain": _task_chain, "c": _task_c, "d": _task_d}[t[0]](t[1])
 
 
 def run(ctx):
@@ -275,13 +312,24 @@ def run(ctx):
         for i in range(0, len(bl), 4 if ctx.thorough else 14):
             tasks.append(("b", (fmt, bl[i:i + (4 if ctx.thorough else 14)], depth)))
         tasks.append(("chain", (fmt,)))
+        if ctx.thorough:
+            pres = ["".join(p) for p in itertools.product("AB", repeat=7)]
+            for i in range(0, len(pres), 4):
+                tasks.append(("d", (fmt, pres[i:i + 4], 17)))
+            pres3 = ["".join(p) for p in itertools.product("ABC", repeat=4) if "C" in p]
+            for i in range(0, len(pres3), 5):
+                tasks.append(("d", (fmt, pres3[i:i + 5], 10)))
+        else:
+            pres = ["".join(p) for p in itertools.product("AB", repeat=3)]
+            for pre in pres:
+                tasks.append(("d", (fmt, [pre], 11)))
     db = refdb.db()
     fast_enc = [d.idx for d in db.defs if d.encodable and d.fast]
     for i in range(0, len(fast_enc), 12):
         tasks.append(("c", (fast_enc[i:i + 12],)))
     results = common.pmap(_dispatch, tasks)
     vios, samples = [], []
-    counts = {"a": 0, "b": 0, "chain": 0, "c": 0}
+    counts = {"a": 0, "b": 0, "chain": 0, "c": 0, "d": 0}
     seqs = 0
     for t, (n, v, s, sq) in zip(tasks, results):
         counts[t[0]] += n
@@ -295,9 +343,10 @@ def run(ctx):
         "distinct_nontrivial": counts["a"] - 3 * 8 * 4 * 7, "distinct_outcomes": seqs,
         "rule": "(a) one case per (format, length 0..223, counter state 0..7, byte pattern); non-trivial = multi-frame (length > 6). "
                 "(b) messages of all ordered tuples of boundary lengths on one encoder/decoder pair. (c) encodable fast definitions x "
-                "4 bases x 3 formats. distinct_outcomes = distinct sequence counters observed in one task",
+                "4 bases x 3 formats. (d) every sequence of messages over 2-3 streams that share one encoder counter.  distinct_outcomes = distinct sequence counters observed in one task",
         "samples": samples, "per_part": counts, "fast_encodable_definitions": len(fast_enc),
-        "bound_completed": f"(a) complete; (b) ordered {'triples' if ctx.thorough else 'pairs'} over {len(boundary_lengths())} boundary lengths + 17-message chain; (c) complete",
+        "bound_completed": f"(a) complete; (b) ordered {'triples' if ctx.thorough else 'pairs'} over {len(boundary_lengths())} boundary lengths + 17-message chain; (c) complete; "
+                           f"(d) all stream sequences over 2 streams of {'17 messages (and over 3 streams of 10 with the third in the first four)' if ctx.thorough else '11 messages'} on one encoder/decoder pair",
         "exhaustive": True,
     }
     return {"coverage": cov, "violations": vios,
@@ -319,6 +368,17 @@ def replay(ctx, rep):
         prev = None
         for L in c["lengths"]:
             v, prev = check_message(enc, dec, c["format"], 130816, pattern("asc", L), prev, "replay")
+            if v:
+                return [{"kind": k, "facts": f, "detail": d, "case": c} for k, f, d in v]
+        return []
+    if c["part"] == "d":
+        enc, dec = NMEA2000Encoder(), NMEA2000Decoder()
+        prev = None
+        bl = [9, 13, 0, 6, 7, 14, 20, 223, 21, 1]
+        for idx, st in enumerate(c["streams"]):
+            pgn, dst = STREAMS[st]
+            L = bl[(idx * 3 + c.get("offset", 0)) % len(bl)]
+            v, prev = check_message_on(enc, dec, c["format"], pgn, dst, pattern("asc" if idx % 2 else "seeded", L, idx), prev, "replay")
             if v:
                 return [{"kind": k, "facts": f, "detail": d, "case": c} for k, f, d in v]
         return []
